@@ -402,8 +402,12 @@ def timedelta(s):
             seconds = val
         else:
             raise TypeError(f'bad part {part} in {s}')
-    return datetime.timedelta(weeks=weeks, days=days, hours=hours,
-                              minutes=minutes, seconds=seconds)
+    try:
+        return datetime.timedelta(weeks=weeks, days=days, hours=hours,
+                                  minutes=minutes, seconds=seconds)
+    except OverflowError as e:
+        # an infinite component, or a duration datetime cannot represent
+        raise ValueError(f'time delta out of range: {s} ({e})')
 
 
 stock_datatypes = {
